@@ -660,6 +660,7 @@ def handover(prog, run, only_methods=None):
             if x is None:
                 run.ob("R-handover", m.qual, f"{p} <- {want}", None, f"argument for {p} could not be expressed in the scope of {mname}", file=fh, node=call)
                 continue
+            stale = ""
             if mname == "mpe":
                 ok = isinstance(x, ast.Name) and x.id == want and want in mpos
                 if not ok and isinstance(x, ast.Attribute) and astq.src(x).startswith("self.run_params."):
@@ -667,6 +668,8 @@ def handover(prog, run, only_methods=None):
                     st_, v_ = astq.attr_store_status(holder if holder is not None else m, call, astq.src(x))
                     if st_ == "before" and isinstance(v_, ast.Name) and v_.id == want and want in mpos:
                         ok = True
+                    elif st_ == "after":
+                        stale = f" is read BEFORE this call's `{want}` is stored into it: the extraction uses the value of the previous request"
             else:
                 s = astq.src(x, 80)
                 if want == "rtol" and isinstance(x, ast.Attribute) and s.startswith("self.run_params."):
@@ -675,7 +678,7 @@ def handover(prog, run, only_methods=None):
                         x = v_
                 ok = (want == "rtol" and isinstance(x, ast.Name) and x.id == "rtol") or \
                      (want == "sel_freq" and s.endswith(".result[0]") and "SelFromPlot" in s) or (want == "order" and s.endswith(".result[1]") and "SelFromPlot" in s)
-            run.ob("R-handover", m.qual, f"{p} <- {want}", ok, f"`{astq.src(x, 60)}`", astq.src(x, 60), file=fh, node=call)
+            run.ob("R-handover", m.qual, f"{p} <- {want}", ok, f"`{astq.src(x, 60)}`" + stale, astq.src(x, 60), file=fh, node=call)
         m_outer, m, f = m, holder, fh
         # stores: self.result.X = <name unpacked at the position where the callee returns X>
         ret_names = None
